@@ -141,6 +141,13 @@ pub fn gen_graph(rng: &mut Rng, o: &GraphOpts) -> Scenario {
                 let src = format!("src/{}.txt", name);
                 files.push(FileSpec { path: format!("p0/{}", src), kind: FileKind::File(format!("source of {} v0\n", name)) });
                 t.input.push(Res::Paths { paths: vec![src], extensions: None });
+                if big.is_empty() && rng.chance(12) {
+                    // a second `paths` entry: a directory holding a file and a named pipe
+                    let d = format!("srcd/{}", name);
+                    files.push(FileSpec { path: format!("p0/{}/more.txt", d), kind: FileKind::File(format!("more of {} v0\n", name)) });
+                    files.push(FileSpec { path: format!("p0/{}/ctl.pipe", d), kind: FileKind::Fifo });
+                    t.input.push(Res::Paths { paths: vec![d], extensions: None });
+                }
             }
             if rng.chance(75) {
                 let out = format!("out/{}.out", name);
@@ -382,6 +389,10 @@ pub fn gen_io(rng: &mut Rng, o: &IoOpts) -> Scenario {
                         files.push(FileSpec { path: format!("{}/{}/dangling.c", pdir, d), kind: FileKind::Symlink("nowhere.c".into()) });
                         files.push(FileSpec { path: format!("{}/{}/emptydir", pdir, d), kind: FileKind::Dir });
                     }
+                    if rng.chance(10) {
+                        // a tool's control pipe lying in the sources: not a regular file
+                        files.push(FileSpec { path: format!("{}/{}/ctl.pipe", pdir, d), kind: FileKind::Fifo });
+                    }
                     if rng.chance(25) {
                         files.push(FileSpec { path: format!("{}/{}/.zinoma/planted.c", pdir, d), kind: FileKind::File("planted\n".into()) });
                     }
@@ -409,6 +420,12 @@ pub fn gen_io(rng: &mut Rng, o: &IoOpts) -> Scenario {
                     t.input.push(Res::Paths { paths: vec![src], extensions: None });
                 }
                 _ => {}
+            }
+            if !t.input.is_empty() && rng.chance(18) {
+                // a second, separate `paths` entry with the same (absent) filter as the first
+                let extra = format!("src2/{}.txt", name);
+                files.push(FileSpec { path: format!("{}/{}", pdir, extra), kind: FileKind::File(format!("{} {} second entry v0\n", pdir, name)) });
+                t.input.push(Res::Paths { paths: vec![extra], extensions: None });
             }
             if rng.chance(o.cmd_pct) {
                 // the same command text in every project directory, different values per directory
